@@ -114,6 +114,7 @@ Definition pev_ok (tid : nat) (p p' : lpc) (S : lshared) (ev : list levent) : Pr
   | [EGoroutines _ _] => False
   | [EStopOver _] => False
   | [EEmitOver _] => False
+  | [EStopAgainOver _] => False
   | [_] => in_stop p' = in_stop p
   | _ => False
   end.
@@ -964,3 +965,12 @@ Lemma inflight_joined :
     [ESyncBegin 0; EStopBegin 2; ESinkBegin 0 false; ESinkEnd 0; ESyncEnd 0 true; EStopReturn 2 true] /\
   chk_state inflight_run = None.
 Proof. vm_compute. auto. Qed.
+
+(* family D: no schedule of the repaired protocol makes the monitor report a blocked second Stop (the harness-only event
+   EStopAgainOver is never produced: a Stop caller that finds `stopped` set returns through straight-line code) *)
+Lemma second_stop_never_blocked : forall c cap0 async sync roles sched, c_track_sync c = true ->
+  chk_state (lrun c sched (linit cap0 async sync roles)) <> Some ClSecondStopBlocked.
+Proof.
+  intros c cap0 async sync roles sched Ht.
+  destruct (stop_barrier c cap0 async sync roles sched Ht) as [H | H]; rewrite H; discriminate.
+Qed.
